@@ -31,7 +31,10 @@ BOUNDS = {
 OUTSIDE = [
     "'total volume equals the prescribed maximum to bisection tolerance': needs the complete ~30-step data-dependent "
     "bisection (2^30 paths); here the bisection is bounded to 2 (thorough 3) steps through the public arguments "
-    "l1init / l2init / l1l2tol, and only the clauses that do not depend on the number of steps are claimed: NOT decided",
+    "l1init / l2init / l1l2tol, and only the clauses that do not depend on the number of steps are claimed: NOT decided by "
+    "the solver; four `oc-volume-concrete-*` regression items run the real routine on fixed data (default bracket, "
+    "tolerances 1e-4 .. 1e-9) and compare the volume with a bound derived from the definition (evidence kind "
+    "`concrete-regression`, not a solver verdict)",
     "convergence of the iteration to the analytic optimum of sum c_i / x_i: NOT decided (only the stopping rule of one "
     "iteration: the update is discarded exactly when |x_new - x| / |x| of the whole design is below tolx)",
     "more than one outer iteration in one symbolic run, except the 'idlefirst' items (two iterations, the first with an "
@@ -52,20 +55,20 @@ ITEM_TIMEOUT = {"quick": 240, "thorough": 900}
 
 
 def VIEWS_LAYOUT_ITEMS(it, tier):
-    return True
+    return it["kind"] == "oc"
 
 
 def items(tier):
     b = BOUNDS[tier]
     out = []
 
-    def add(lay, steps=2, bnd="scalar", maxvol="sym", move="scalar", tolx="0", pos=False, alias=False, idle_first=False, iters=1):
+    def add(lay, steps=2, bnd="scalar", maxvol="sym", move="scalar", tolx="0", pos=False, alias=False, idle_first=False, iters=1, dirty=False):
         ident = "oc-%s-b%d-%s-vol%s-mv%s-tolx%s%s%s%s" % (lay, steps, "bvec" if bnd == "vector" else "bsc", maxvol,
                                                            "v" if move == "vector" else "s", tolx, "-posgrad" if pos else "",
                                                            "-sharedinit" if alias else "",
-                                                           "-idlefirst" if idle_first else ("-it%d" % iters if iters > 1 else ""))
+                                                           "-idlefirst" if idle_first else ("-it%d" % iters if iters > 1 else "")) + ("-usednetwork" if dirty else "")
         out.append(dict(kind="oc", id=ident, layout=lay, steps=steps, bounds=bnd, maxvol=maxvol, move=move, tolx=tolx, pos=pos,
-                        alias=alias, idle_first=idle_first, iters=(2 if idle_first else iters),
+                        alias=alias, idle_first=idle_first, iters=(2 if idle_first else iters), dirty=dirty,
                         **(dict(timeout=400 if tier == "quick" else 1500) if (pos or idle_first or iters > 1) else {})))
     for lay in b["layouts"]:
         add(lay, bnd="scalar", maxvol="sym")
@@ -77,11 +80,19 @@ def items(tier):
     add("a2-a1", pos=True)
     add("a2-a2", alias=True)       # both variable signals initialised from one user array
     add("m22-a1")                  # a 2-D variable array (offsets count entries, not rows)
+    # the network was used before (a response and a back-propagation for another purpose, no reset): sensitivities are left on
+    # the variable signals and on the objective when minimize_oc starts
+    add("a2", maxvol="sym", dirty=True)
+    add("a1-a1", maxvol="none", bnd="vector", dirty=True)
     # two outer iterations, the first with an objective that does not depend on the design (every variable goes to its
     # lower limit, volume is lost): the second update must still aim at the volume prescribed at the start
     add("a2", maxvol="none", idle_first=True)
     add("a1-a1", maxvol="sym", idle_first=True)
     # (two ordinary outer iterations in one run - add("a2", maxvol="none", iters=2) - do not finish in 400 s)
+    # concrete regression items: volume to bisection tolerance (default tolerance; a user who lowered the tolerance
+    # because the gradients, hence the multiplier, are small)
+    for n, tol, lam in [(4, "1e-4", "0.8"), (6, "1e-9", "2e-3"), (5, "1e-7", "0.05"), (8, "1e-4", "40")]:
+        out.append(dict(kind="oc_volume_concrete", id="oc-volume-concrete-n%d-tol%s-lam%s" % (n, tol, lam), n=n, l1l2tol=tol, lam=lam))
     if tier == "thorough":
         add("a3", pos=True, bnd="vector")
         add("a2", steps=3)
@@ -256,6 +267,12 @@ def sc_oc(V, P, cfg):
     idle = bool(cfg.get("idle_first"))
     iters = cfg.get("iters", 1)
     net = pym.Network(Mod(sx, sf, coef=coef, idle_calls=1, offset=1) if idle else Mod(sx, sf, coef=coef))
+    if cfg.get("dirty"):
+        net.response()
+        for k, s_ in enumerate(sx):
+            st_ = s_.state
+            s_.sensitivity = (V.reals("left%d" % k, np.shape(st_)) if isinstance(st_, np.ndarray) else V.real("left%d" % k))
+        sf.sensitivity = V.real("leftf", default=0.5)
     saved = {}
     if V.symbolic:
         _ctx.current().stubs.add("builtin max inside pymoto.routines -> If-terms")
@@ -357,7 +374,60 @@ def sc_oc(V, P, cfg):
     return obs
 
 
-SCEN = dict(oc=sc_oc)
+def sc_oc_volume_concrete(V, P, cfg):
+    """Concrete regression items (NOT a solver verdict: fixed data, the real minimize_oc with the real NumPy; evidence kind
+    `concrete-regression`): after one update the volume equals the prescribed (reachable) volume to bisection tolerance.
+    The bound follows from the definition: V(lam) = sum clip(x sqrt(-g/lam)) is monotone, the bisection ends with its
+    multiplier within l1l2tol of the root, so |V - maxvol| <= l1l2tol * max |dV/dlam| near the root (factor 2 for safety)."""
+    import pymoto as pym
+    from pymoto import routines as rt
+    Mod = _user_module()
+    n, tol = cfg["n"], float(cfg["l1l2tol"])
+    lam_star = float(cfg["lam"])
+    x0 = np.array([0.35 + 0.1 * (i % 4) for i in range(n)])
+    spread = np.array([0.6 + 0.25 * (i % 5) for i in range(n)])
+    coef = lam_star * spread * x0 * x0          # -g_i / lam_star = spread_i: some variables grow, some shrink
+    xmin, xmax, move = 0.05, 1.0, 0.2
+    if V.symbolic:
+        from symx import npshim
+        npshim.uninstall()
+    try:
+        sx = pym.Signal("x", x0.copy())
+        sf = pym.Signal("f")
+        net = pym.Network(Mod(sx, sf, coef=[coef]))
+        maxvol = float(np.sum(x0))
+        with warnings.catch_warnings():
+            warnings.simplefilter("ignore")
+            rt.minimize_oc(net, [sx], sf, tolx=0.0, tolf=0.0, maxit=1, xmin=xmin, xmax=xmax, move=move, l1l2tol=tol,
+                           maxvol=maxvol, verbosity=0)
+        x1 = np.asarray(sx.state, dtype=float)
+    finally:
+        if V.symbolic:
+            npshim.install()
+    g = coef / (x0 * x0)
+    lo, hi = np.maximum(xmin, x0 - move), np.minimum(xmax, x0 + move)
+
+    def vol(lam):
+        return float(np.sum(np.clip(x0 * np.sqrt(g / lam), lo, hi)))
+    a, b = 1e-12, 1e5
+    for _ in range(400):
+        mid = 0.5 * (a + b)
+        a, b = (mid, b) if vol(mid) - maxvol > 0 else (a, mid)
+    root = 0.5 * (a + b)
+    lam_lo = max(root - 2 * tol, 0.5 * root)
+    slope = float(np.sum(x0 * np.sqrt(g)) / (2 * lam_lo ** 1.5))
+    bound = 2 * tol * slope + 1e-12
+    err = abs(float(np.sum(x1)) - maxvol)
+    reachable = vol(1e-12) >= maxvol >= vol(1e5)
+    ok = bool(reachable and np.isfinite(err) and err <= bound)
+    inb = bool(np.all(x1 >= lo - 1e-12) and np.all(x1 <= hi + 1e-12))
+    if P is not None:
+        P.holds("oc-volume:equals-maxvol-to-bisection-tolerance", ok, kind="concrete-regression:oc-volume")
+        P.holds("oc-volume:bounds-and-move-limit", inb, kind="concrete-regression:oc-volume")
+    return dict(err_over_bound=(err / bound if np.isfinite(err) else 1e300), inb=float(inb), reachable=float(reachable))
+
+
+SCEN = dict(oc=sc_oc, oc_volume_concrete=sc_oc_volume_concrete)
 
 
 def run_item(cfg, tier):
@@ -367,6 +437,10 @@ def run_item(cfg, tier):
 def replay(cfg, label, env, case):
     """Floats on the real library: real minimize_oc with the model values, the violated clause evaluated numerically."""
     want_exc = label.split(":", 1)[1] if label.startswith("exception:") else None
+    if cfg["kind"] == "oc_volume_concrete":
+        obs = sc_oc_volume_concrete(Vals(env=env), None, cfg)
+        bad = not (obs["err_over_bound"] <= 1.0) or not obs["inb"] or not obs["reachable"]
+        return dict(reproduced=bool(bad), detail=obs)
     try:
         obs = SCEN[cfg["kind"]](Vals(env=env), None, cfg)
     except Exception as e:
